@@ -268,6 +268,11 @@ def run(ctx):
                       "a background loop that receives without blocking forever leaves only when the channel is disconnected (or on its shutdown signal), not when nothing arrived in time", c.where(b), "; ".join(sorted(set(bad))[:2]))
     ctx.note("R17.9: %d non-blocking / timed receive(s) in background loops" % n_nb)
 
+    # ---- R17.10 (= C14 R14.9) no counter position is out of bounds: an index panic there kills the access consumer
+    for o in ctx.own_of("c14"):
+        if o["rule"] in ("R14.9",) or (o["rule"] == "R14.5" and "same-cells" in o["key"]):
+            ctx._add(o["status"], "R17.10", o["key"], o["desc"] + " [an out-of-range position panics the consumer thread]", o["where"], o["detail"])
+
     # ---- R17.8 (= C08 R08.7) the upsert's "does the key exist" agrees with what reads report -------------------------
     # put_or_update asserts that a request without a value only ever *updates*: whether it updates is decided by the
     # in-place update's liveness test.  If that test disagrees with the read path (a key `get` still returns is treated as
